@@ -53,7 +53,7 @@ pub fn probes() -> Vec<Probe> {
         v.push(Probe {
             sig: SIG_REDUCE_NO_REPLAY_PUSH,
             what: "reduce_no_replay on the push side of a subgraph (e.g. after tee()) emits nothing in a tick > 0 in which exactly one item initialises its accumulator ('tick: every tick with a single item; 'static: the first item ever): the push code path sets its was_updated flag inside the reduce closure, which push::reduce_ref does not call for the first item; the pull code path emits the item",
-            case: SemCase { prog, scripts: vec![script] },
+            case: SemCase { prog, scripts: vec![script], tags: vec![] },
         });
     }
     v
